@@ -1307,3 +1307,119 @@ def r_enumeration_siblings(ctx):
         else:
             ctx.ok(inst, init.loc(sel[0][0]), '%d selections, conjuncts %s' % (len(sel), sorted(ref[2])))
     ctx.expect_min(1)
+
+
+@rule('R-connecting-registered', 'a connection that is left in the CONNECTING state is registered with the poller: no normal '
+                                 'exit leaves the state set to CONNECTING without a subscribe (or a reset to DISCONNECTED)')
+def r_connecting_registered(ctx):
+    """The transport dials only connections whose state is DISCONNECTED and learns about progress only through poller
+    events.  A connection object that says CONNECTING but is not subscribed never gets an event and is never dialled
+    again: the pair stays disconnected for ever."""
+    P = ctx.P
+    C, send, parse, rbuf, wbuf = _wire.conn_parts(ctx)
+    sock, state = _wire.conn_attrs(ctx)
+    n_sites = 0
+    for m in P.methods_of(C):
+        if m.name == '__init__':
+            continue
+        stores = [st for st, k in U.assigns_to_attr(P, m, state) if P.const_class_value(st.value) and P.const_class_value(st.value)[1] == 'CONNECTING']
+        if not stores:
+            continue
+        cfg = U.explorer(ctx, m).cfg
+        settle = []
+        for n in cfg.nodes:
+            if n.kind != 'stmt' or n.ast is None:
+                continue
+            for c in [x for x in ast.walk(n.ast) if isinstance(x, ast.Call)]:
+                if isinstance(c.func, ast.Attribute) and c.func.attr == 'subscribe':
+                    settle.append(n.id)
+                if isinstance(c.func, ast.Attribute) and c.func.attr == 'disconnect' and isinstance(c.func.value, ast.Name) and c.func.value.id == m.self_name:
+                    settle.append(n.id)
+            if isinstance(n.ast, ast.Assign) and any(P.self_attr(t, m.self_name) == state for t in n.ast.targets) and P.const_class_value(n.ast.value) \
+                    and P.const_class_value(n.ast.value)[1] == 'DISCONNECTED':
+                settle.append(n.id)
+        for st in stores:
+            sn = U.node_containing(cfg, st)
+            inst = '%s: `%s` is followed by a poller subscription on every normal exit' % (m.qualname, unparse(st))
+            n_sites += 1
+            ctx.tick()
+            succ = [d for d, l in sn.succ if not (isinstance(l, tuple) and l[0] == 'exc')]
+            leak = any(cfg.exit.id in cfg.reachable_from(d, avoid=settle) for d in succ if d not in settle)
+            if leak:
+                ctx.violation('%s:connecting-without-subscription' % m.qualname, m.loc(st),
+                              'after `%s` the method can return (for instance through the handler of a failed connect) without subscribing to the poller and without putting the state '
+                              'back to DISCONNECTED: the object then looks busy for ever and the transport never dials this peer again' % unparse(st), instance=inst)
+            else:
+                ctx.ok(inst, m.loc(st), 'normal exit unreachable without subscribe / reset')
+    ctx.require(n_sites >= 1, 'no method of the connection class enters the CONNECTING state')
+    ctx.expect_min(1)
+
+
+def _clock_kind(P, f, call):
+    """'monotonic' | 'wall' for a call recognised by util.is_clock_call, resolving import aliases of the module"""
+    name = unparse(call.func)
+    last = name.split('.')[-1]
+    if 'onotonic' in last or last == 'perf_counter':
+        return 'monotonic'
+    imp = f.module.imports.get(name) if hasattr(f.module, 'imports') else None
+    if imp and any(x and ('onotonic' in x or x == 'perf_counter') for x in imp):
+        return 'monotonic'
+    return 'wall'
+
+
+def _feeds_interval(P, C, m, call):
+    """the clock value takes part in a comparison / sum / difference: directly, through the local it is assigned to, or
+    through the attribute (table) it is stored in, anywhere in the class"""
+    def in_arith(pred, scope_nodes):
+        for root in scope_nodes:
+            for n in ast.walk(root):
+                if isinstance(n, ast.Compare) or (isinstance(n, ast.BinOp) and isinstance(n.op, (ast.Sub, ast.Add))):
+                    if any(pred(x) for x in ast.walk(n)):
+                        return True
+        return False
+    if in_arith(lambda x: x is call, [m.node]):
+        return True
+    for st in ast.walk(m.node):
+        if isinstance(st, ast.Assign) and st.value is call:
+            for t in st.targets:
+                if isinstance(t, ast.Name):
+                    if in_arith(lambda x, t=t: isinstance(x, ast.Name) and x.id == t.id, [m.node]):
+                        return True
+                base = t.value if isinstance(t, ast.Subscript) else t
+                a = P.self_attr(base, m.self_name)
+                if a:
+                    for g in P.methods_of(C):
+                        if in_arith(lambda x, g=g, a=a: P.self_attr(x, g.self_name) == a, [g.node]):
+                            return True
+    return False
+
+
+@rule('R-interval-clock', 'every clock read of the TCP transport, server and connection classes (retry back-off, bind retry, silence '
+                          'timeout) uses the monotonic clock: the intervals that bound reconnection are not stretched by a wall-clock step')
+def r_interval_clock(ctx):
+    P = ctx.P
+    n_sites = 0
+    for cn in ('TCPTransport', 'TcpConnection', 'TcpServer'):
+        if not P.has_cls(cn):
+            continue
+        C = P.cls(cn)
+        for m in P.methods_of(C):
+            if m.owner_cls is not C:
+                continue
+            for c in P.calls_in(m, include_nested=True):
+                if not U.is_clock_call(c):
+                    continue
+                n_sites += 1
+                ctx.tick()
+                inst = '%s: `%s` reads the monotonic clock' % (m.qualname, unparse(c))
+                if not _feeds_interval(P, C, m, c):
+                    ctx.ok(inst, m.loc(c), 'value not used in a comparison or difference (no interval)', nontrivial=False)
+                    continue
+                if _clock_kind(P, m, c) == 'monotonic':
+                    ctx.ok(inst, m.loc(c), '', nontrivial=False)
+                else:
+                    ctx.violation('%s:interval-from-wall-clock' % m.qualname, m.loc(c),
+                                  '`%s` reads the wall clock; every time value in this class is a stamp for an interval test (retry back-off, silence timeout): after a backward step of '
+                                  'the system time the test stays true for the length of the step and the peer is not re-dialled / not timed out' % unparse(c), instance=inst)
+    ctx.require(n_sites >= 5, 'clock reads of the transport / connection classes not found')
+    ctx.expect_min(5)
